@@ -1,10 +1,35 @@
 import BoboVerif.Drivers.Util
 import BoboVerif.Drivers.IdGen
+import BoboVerif.Drivers.Modes
+import BoboVerif.Drivers.Frame
+import BoboVerif.Drivers.Crypto
+import BoboVerif.Drivers.Json
+import BoboVerif.Drivers.Validator
+import BoboVerif.Drivers.Actions
+import BoboVerif.Drivers.Engine
+import BoboVerif.Drivers.Locks
+import BoboVerif.Drivers.Builder
+import BoboVerif.Drivers.Run
+import BoboVerif.Drivers.Decider
+import BoboVerif.Drivers.Cluster
 open Bobo.Drv
 
+/-- `bobodrv <model>`: reads one operation per line on stdin, prints one line per operation. -/
 def main (args : List String) : IO UInt32 := do
-  let stdin ← IO.getStdin
-  let stdout ← IO.getStdout
+  let i ← IO.getStdin
+  let o ← IO.getStdout
   match args with
-  | ["idgen"] => loop Bobo.Drv.IdGen.step stdin stdout {}; return 0
+  | ["idgen"]     => loop Bobo.Drv.IdGen.step i o {}; return 0
+  | ["modes"]     => loop Bobo.Drv.Modes.step i o {}; return 0
+  | ["frame"]     => loop Bobo.Drv.Frame.step i o {}; return 0
+  | ["crypto"]    => loop Bobo.Drv.Crypto.step i o {}; return 0
+  | ["json"]      => loop Bobo.Drv.Json.step i o {}; return 0
+  | ["validator"] => loop Bobo.Drv.Validator.step i o {}; return 0
+  | ["actions"]   => loop Bobo.Drv.Actions.step i o {}; return 0
+  | ["engine"]    => loop Bobo.Drv.Engine.step i o {}; return 0
+  | ["locks"]     => loop Bobo.Drv.Locks.step i o {}; return 0
+  | ["builder"]   => loop Bobo.Drv.Builder.step i o {}; return 0
+  | ["run"]       => loop Bobo.Drv.Run.step i o {}; return 0
+  | ["decider"]   => loop Bobo.Drv.Decider.step i o {}; return 0
+  | ["cluster"]   => loop Bobo.Drv.Cluster.step i o {}; return 0
   | _ => IO.eprintln "usage: bobodrv <model>"; return 2
